@@ -154,27 +154,40 @@ def type_names(ast_types_reply):
     return [t for t in ast_types_reply[3:].split(",") if t] if ast_types_reply.startswith("ok") else []
 
 
-def campaign(tier, seed, nspecs=None, opts=None, tag="t2", with_clone=True):
-    """Compiles a batch of supported specifications and runs valid and hostile inputs through the compiled decoders
-    and the model.  Cached under work/cache by (repo tree, tools, seed, tier).  Returns dict(cases=[...], batch=..., specs=[...])."""
-    import specgen
-    rng = Rng(seed).fork("t2" + tier + tag)
-    nspecs = nspecs or (40 if tier == "quick" else 600)
-    nvals = 8 if tier == "quick" else 30
-    key = hashlib.sha256(("%s|%s|%s|%s|%d|%s|%s" % (repo_tree_hash(), tools_hash(), tier, seed, nspecs, json.dumps(opts, sort_keys=True), tag)).encode()).hexdigest()[:16]
+def chunk_plan(tier, nspecs):
+    """[(number of random specifications, with the construct catalogue, values per type)] — the thorough tier is the quick
+    campaign repeated on fresh specifications, processed and cached chunk by chunk (one chunk is a few hundred MB of cases)"""
+    if tier == "quick":
+        return [(nspecs or 40, True, 8)]
+    return [(nspecs or 40, True, 16)] + [(60, False, 12)] * 9
+
+
+def campaign_chunks(tier, seed, nspecs=None, opts=None, tag="t2", with_clone=True):
+    """Compiles batches of supported specifications and runs valid and hostile inputs through the compiled decoders
+    and the model.  Yields one dict(cases=[...], specs=[...]) per chunk, each cached under work/cache by (repo tree, tools, seed, tier, chunk)."""
     cdir = os.path.join(WORK, "cache")
     os.makedirs(cdir, exist_ok=True)
-    cfile = os.path.join(cdir, "t2_%s.json" % key)
-    if os.path.exists(cfile):
-        return json.load(open(cfile))
-    with Lock("t2campaign"):
-        if os.path.exists(cfile):
-            return json.load(open(cfile))
-        res = _campaign(rng, tier, nspecs, nvals, opts, tag, with_clone)
-        for f in sorted(os.listdir(cdir))[:-40]:
-            os.remove(os.path.join(cdir, f))
-        json.dump(res, open(cfile, "w"))
-        return res
+    for ci, (n, with_catalog, nvals) in enumerate(chunk_plan(tier, nspecs)):
+        rng = Rng(seed).fork("t2" + tier + tag + (str(ci) if ci else ""))
+        key = hashlib.sha256(("%s|%s|%s|%s|%d|%s|%s|%d" % (repo_tree_hash(), tools_hash(), tier, seed, n, json.dumps(opts, sort_keys=True), tag, ci)).encode()).hexdigest()[:16]
+        cfile = os.path.join(cdir, "t2_%s.json" % key)
+        if not os.path.exists(cfile):
+            with Lock("t2campaign"):
+                if not os.path.exists(cfile):
+                    res = _campaign(rng, tier, n, nvals, opts, "%s%d" % (tag, ci), with_clone, with_catalog)
+                    old = sorted((os.path.getmtime(os.path.join(cdir, f)), f) for f in os.listdir(cdir))
+                    for _, f in old[:-14]:
+                        os.remove(os.path.join(cdir, f))
+                    json.dump(res, open(cfile + ".tmp", "w"))
+                    os.replace(cfile + ".tmp", cfile)
+                    del res
+        os.utime(cfile)
+        yield json.load(open(cfile))
+
+
+def campaign(tier, seed, nspecs=None, opts=None, tag="t2", with_clone=True):
+    """the first chunk (the whole campaign in the quick tier)"""
+    return next(campaign_chunks(tier, seed, nspecs, opts, tag, with_clone))
 
 
 def i32(v):
@@ -231,9 +244,9 @@ def targeted(b, marks, rng):
     return out
 
 
-def _campaign(rng, tier, nspecs, nvals, opts, tag, with_clone):
+def _campaign(rng, tier, nspecs, nvals, opts, tag, with_clone, with_catalog=True):
     import specgen
-    cases_spec = [{"text": specgen.render(items), "items": items, "meta": {"flags": [], "catalog": ctag}} for ctag, items in specgen.catalog()]
+    cases_spec = [] if not with_catalog else [{"text": specgen.render(items), "items": items, "meta": {"flags": [], "catalog": ctag}} for ctag, items in specgen.catalog()]
     cases_spec += t3.corpus_supported(nspecs, rng, variants=1, opts=opts)
     texts = [c["text"] for c in cases_spec]
     batch = Batch(texts, with_clone=with_clone, tag=tag)
